@@ -1266,6 +1266,11 @@ static ares_status_t ares_uri_parse_hostport(ares_uri_t *uri, ares_buf_t *buf)
     return ARES_EBADSTR;
   }
 
+  /* Range check, don't wrap (port[] holds few enough digits for atoi()) */
+  if (atoi(port) > 65535) {
+    return ARES_EBADSTR;
+  }
+
   status = ares_uri_set_port(uri, (unsigned short)atoi(port));
   if (status != ARES_SUCCESS) {
     return status;
